@@ -238,7 +238,7 @@ fn eval_npy(_ctx: &Ctx, case: &NpyChunkCase) -> Verdict {
 // call sets through the hooked genotype reader builder + the site reader loop
 
 #[derive(Clone, Debug)]
-enum CreateResult {
+pub(crate) enum CreateResult {
     Spectrum(Vec<usize>, Vec<u64>, usize),
     /// the message is informational and not compared
     Error(String),
@@ -255,6 +255,21 @@ impl PartialEq for CreateResult {
 }
 
 fn create_in_process(cs: &CallSet, map: &MapSpec, reader: ChunkReader, threads: usize) -> Result<CreateResult, Failure> {
+    create_in_process_declared(cs, map, reader, threads, 0, &Container::Vcf)
+}
+
+/// `declared` bit 0: the caller names the (true) format with `set_format`; bit 1: the caller names
+/// the (true) compression with `set_compression_method`; 0 = both are detected.
+pub(crate) fn create_in_process_declared<R: std::io::BufRead + 'static + std::panic::UnwindSafe>(cs: &CallSet, map: &MapSpec, reader: R, threads: usize, declared: u8, container: &Container) -> Result<CreateResult, Failure> {
+    use sfs_core::input::genotype::reader::builder::{CompressionMethod, Format};
+    let format = match container {
+        Container::Vcf | Container::VcfGz(_) => Format::Vcf,
+        Container::Bcf(_) | Container::BcfRaw => Format::Bcf,
+    };
+    let compression = match container {
+        Container::VcfGz(_) | Container::Bcf(_) => Some(CompressionMethod::Bgzf),
+        Container::Vcf | Container::BcfRaw => None,
+    };
     let list: Vec<(Sample, Population)> = map
         .entries
         .iter()
@@ -264,7 +279,14 @@ fn create_in_process(cs: &CallSet, map: &MapSpec, reader: ChunkReader, threads: 
         }))
         .collect();
     guard(move || {
-        let greader = match genotype::reader::Builder::default().set_threads(NonZeroUsize::new(threads).unwrap()).build_from_bufread(reader) {
+        let mut builder = genotype::reader::Builder::default().set_threads(NonZeroUsize::new(threads).unwrap());
+        if declared & 1 != 0 {
+            builder = builder.set_format(format);
+        }
+        if declared & 2 != 0 {
+            builder = builder.set_compression_method(compression);
+        }
+        let greader = match builder.build_from_bufread(reader) {
             Ok(r) => r,
             Err(e) => return CreateResult::Error(format!("genotype reader: {e}")),
         };
@@ -416,6 +438,31 @@ fn eval_cs(ctx: &Ctx, case: &CsChunkCase) -> Verdict {
             }
         }
     }
+    // the same with the format and / or the compression named by the caller instead of detected
+    // (`set_format`, `set_compression_method`): nothing may then look at how much the first read brought
+    let mut declared_schedules = 0u64;
+    for declared in 1..=3u8 {
+        let whole_d = create_in_process_declared(&case.cs, &case.map, ChunkReader::new(data.clone(), vec![], None), case.threads, declared, &case.container)?;
+        for first in (1..=len.min(24)).chain([len / 2, len.saturating_sub(1)]).filter(|f| *f >= 1 && *f <= len) {
+            for one_byte in [false, true] {
+                if one_byte && first > 3 {
+                    continue;
+                }
+                let got = create_in_process_declared(&case.cs, &case.map, ChunkReader::new(data.clone(), schedule(first, &case.later, one_byte), None), case.threads, declared, &case.container)?;
+                ensure!(
+                    got == whole_d,
+                    "{} call set ({len} bytes, {} threads) with {} named by the caller: with a first chunk of {first} bytes{} the result is {}, reading the same bytes from one slice gives {}",
+                    case.container.label(),
+                    case.threads,
+                    ["", "the format", "the compression", "format and compression"][declared as usize],
+                    if one_byte { ", then one byte at a time" } else { "" },
+                    describe(&got),
+                    describe(&whole_d)
+                );
+                declared_schedules += 1;
+            }
+        }
+    }
     // faults: every offset < 300 and sampled offsets beyond
     let mut offsets: Vec<usize> = (0..len.min(300)).collect();
     if len > 300 {
@@ -480,6 +527,7 @@ fn eval_cs(ctx: &Ctx, case: &CsChunkCase) -> Verdict {
         }
     }
     pass.nontrivial = inside_window > 0 || surfaced > 0;
+    pass.count("chunk-schedules-with-declared-format-or-compression", declared_schedules);
     pass.count("chunk-schedules", schedules);
     pass.count("first-chunk-inside-detection-window", inside_window);
     pass.count("fault-offsets", offsets.len() as u64);
@@ -492,7 +540,7 @@ fn eval_cs(ctx: &Ctx, case: &CsChunkCase) -> Verdict {
     Ok(pass)
 }
 
-fn describe(r: &CreateResult) -> String {
+pub(crate) fn describe(r: &CreateResult) -> String {
     match r {
         CreateResult::Error(e) => format!("an error ({e})"),
         CreateResult::Spectrum(shape, v, sites) => format!("a spectrum of shape {shape:?} over {sites} sites (mass {})", v.iter().map(|b| f64::from_bits(*b)).sum::<f64>()),
@@ -900,7 +948,7 @@ pub fn check(ctx: &Ctx) -> Check {
         }),
         Box::new(RandomPart {
             name: "callset-chunks-and-faults",
-            rule: "call sets in all four containers (generated BGZF layouts) through the hooked genotype::reader::Builder::build_from_bufread (format/compression detection included) and the site-reader loop, threads 1/2/4: first chunk length enumerated 1..min(len,300) (+ one-byte-at-a-time for the shortest), result (spectrum or error) must equal the one-slice result; read fault at every offset < 300 plus 24 sampled offsets, the first bytes of every BCF record, the start of every BGZF block, the last byte and end-of-data, each as a persistent and as a one-off fault of kind Other, and as persistent faults of kind UnexpectedEof (what a truncated lower layer reports) and BrokenPipe: if the error was returned, creation must fail (UnexpectedEof inside a BGZF block header is an open dependency finding, excluded by offset and counted); non-trivial = a first chunk shorter than the container's detection window, or a fault that reached the consumer",
+            rule: "call sets in all four containers (generated BGZF layouts) through the hooked genotype::reader::Builder::build_from_bufread (format/compression detection included) and the site-reader loop, threads 1/2/4: first chunk length enumerated 1..min(len,300) (+ one-byte-at-a-time for the shortest), result (spectrum or error) must equal the one-slice result; the first 24 first-chunk lengths (and len/2, len-1) again with the format, the compression, or both named by the caller through `set_format` / `set_compression_method` instead of detected, against the one-slice result of the same declaration; read fault at every offset < 300 plus 24 sampled offsets, the first bytes of every BCF record, the start of every BGZF block, the last byte and end-of-data, each as a persistent and as a one-off fault of kind Other, and as persistent faults of kind UnexpectedEof (what a truncated lower layer reports) and BrokenPipe: if the error was returned, creation must fail (UnexpectedEof inside a BGZF block header is an open dependency finding, excluded by offset and counted); non-trivial = a first chunk shorter than the container's detection window, or a fault that reached the consumer",
             cases: ctx.tier.pick(64, 1500),
             strategy: Box::new(|| cs_case_strategy().boxed()),
             eval: Box::new(eval_cs),
